@@ -176,6 +176,7 @@ func genPoolGuards(repo string) (string, error) {
 	type ent struct {
 		name  string
 		lines []string
+		skel  []string
 	}
 	var ents []ent
 	for _, d := range f.Decls {
@@ -185,7 +186,11 @@ func genPoolGuards(repo string) (string, error) {
 		}
 		l := &c09Lister{fset: fset}
 		l.block(fd.Body)
-		ents = append(ents, ent{fd.Name.Name, l.out})
+		// the protocol skeleton of skeleton.go (the very string of Gen/Skeletons.lean), cut at its blanks: the
+		// kernel compares many short strings much faster than one long one
+		var atoms []string
+		blockAtoms(fd.Body, &atoms)
+		ents = append(ents, ent{fd.Name.Name, l.out, strings.Split(strings.Join(atoms, " "), " ")})
 	}
 	sort.Slice(ents, func(i, j int) bool { return ents[i].name < ents[j].name })
 	var b strings.Builder
@@ -201,7 +206,20 @@ func genPoolGuards(repo string) (string, error) {
 		}
 		fmt.Fprintf(&b, "  (%s, [\n    %s])%s\n", leanStr(e.name), strings.Join(qs, ",\n    "), sep)
 	}
-	b.WriteString("]\n\ndef poolGuardsOf (m : String) : Option (List String) := (poolGuards.find? (·.1 == m)).map (·.2)\n\nend FpgoVerif.Gen\n")
+	b.WriteString("]\n\ndef poolGuardsOf (m : String) : Option (List String) := (poolGuards.find? (·.1 == m)).map (·.2)\n\n")
+	b.WriteString("/-- protocol skeletons (extract/skeleton.go) of the same functions, as the list of their blank-separated pieces -/\ndef poolSkeletons : List (String × List String) := [\n")
+	for i, e := range ents {
+		sep := ","
+		if i == len(ents)-1 {
+			sep = ""
+		}
+		qs := make([]string, len(e.skel))
+		for k, s := range e.skel {
+			qs[k] = leanStr(s)
+		}
+		fmt.Fprintf(&b, "  (%s, [\n    %s])%s\n", leanStr(e.name), strings.Join(qs, ",\n    "), sep)
+	}
+	b.WriteString("]\n\ndef poolSkeletonOf (m : String) : Option (List String) := (poolSkeletons.find? (·.1 == m)).map (·.2)\n\nend FpgoVerif.Gen\n")
 	return b.String(), nil
 }
 
